@@ -32,7 +32,7 @@ func Run(c *run.Ctx) {
 			c.Inconclusive("bad replay: " + err.Error())
 			return
 		}
-		c.Begin(&cs, 120*time.Second)
+		c.Begin(&cs, 300*time.Second)
 		runCase(c, &cs)
 		c.End()
 		return
@@ -57,7 +57,7 @@ func opts(c *run.Ctx) genOpts {
 
 // execCase journals, runs and accounts one case.
 func execCase(c *run.Ctx, cs *Case) {
-	c.Begin(cs, 120*time.Second)
+	c.Begin(cs, 300*time.Second)
 	runCase(c, cs)
 	c.End()
 }
@@ -565,6 +565,7 @@ func dense(c *run.Ctx) {
 
 func randomCases(c *run.Ctx, n int) {
 	o := opts(c)
+	o.short = c.Flavour == "race"
 	for i := 0; i < n; i++ {
 		if !c.Mine(i) {
 			continue
@@ -600,6 +601,7 @@ func randomCases(c *run.Ctx, n int) {
 // detCases: the same match evaluated 200 times by one worker and by 8 workers.
 func detCases(c *run.Ctx, n int) {
 	o := opts(c)
+	o.short = true // 200 evaluations per line and view: long texts add cost, not coverage (the dense and random cases have them)
 	for i := 0; i < n; i++ {
 		if !c.Mine(i) {
 			continue
